@@ -150,6 +150,14 @@ type conCase struct {
 	Probes [][]int  `json:"probes"`
 	Opt    options  `json:"opt"`
 	Origin string   `json:"origin,omitempty"`
+	// ParentName: the files below the child carry this name (that of a predefined
+	// CMap) although they are ordinary files embedded as streams
+	ParentName string `json:"parentname,omitempty"`
+	// CloneStep: before the file is queried, every file of its chain is cloned and the
+	// clone gets another mapping (SetMapping); the original must not notice
+	CloneStep bool `json:"clonestep,omitempty"`
+	// Predefined: name of a predefined CMap (kind "frame-cid")
+	Predefined string `json:"predefined,omitempty"`
 	// table expectations (P-C only; nil for random cases)
 	want map[string]val
 	// the chain read as one map (P-C only)
@@ -178,9 +186,15 @@ type record struct {
 	Mapping []entry    `json:"mapping"`
 	Opt     options    `json:"opt"`
 	Origin  string     `json:"origin"`
+	// how the case was set up (for the replay)
+	ParentName string `json:"parentname"`
+	CloneStep  bool   `json:"clonestep"`
+	Predefined string `json:"predefined"`
 	// ProbeCodes repeats the probed codes (also when the real code failed before
 	// answering): a replay needs them
 	ProbeCodes [][]int `json:"probecodes"`
+	// All2: kind "frame-cid": the enumeration before the step that must not change it
+	All2 []entry `json:"all2"`
 }
 
 func key(c []int) string {
@@ -256,6 +270,9 @@ func (r *record) normalise() {
 	}
 	if r.Mapping == nil {
 		r.Mapping = []entry{}
+	}
+	if r.All2 == nil {
+		r.All2 = []entry{}
 	}
 	if r.ProbeCodes == nil {
 		r.ProbeCodes = [][]int{}
